@@ -6,6 +6,7 @@ import PyPhysim.Proofs.C20EigQR
 import PyPhysim.Proofs.C20GmdStep
 import PyPhysim.Proofs.C20GmdInvTop
 import PyPhysim.Generated.C20Conversion
+import PyPhysim.Proofs.C20Robust
 
 /-!
 # C20 — subspace and linear-algebra kernels satisfy their defining identities
@@ -929,6 +930,178 @@ theorem chordal_angles_disagree_when_dims_differ : ¬ ChordalAgreementAllDimsSta
   norm_num at h3
 
 end known_finding
+
+/-! ## R15 — distinct values that are merely close
+
+The model never rounds, thresholds or compares a value "up to a tolerance": every model function is a
+function of the exact value.  These statements make that explicit for the places where C20's code
+compares, thresholds or converts a value. -/
+section r15
+variable {m p q r n : Nat}
+
+/-- two projection matrices that differ — by however little — are a non-zero chordal distance apart
+    (the distance identifies subspaces only when they are *equal*, never when they are merely close) -/
+theorem distinct_projectors_positive_distance (P1 P2 : Mat ℂ m m) (h : P1 ≠ P2) :
+    chordOfProj P1 P2 ≠ 0 := fun h0 => h ((chordOfProj_eq_zero_iff P1 P2).mp h0)
+
+/-- `S[S > 1] = 1` clamps nothing below or at one: cosines `≤ 1`, however close to one, reach
+    `arccos` unchanged -/
+theorem principal_angles_clamp_only_above_one (S : List ℝ) (h : ∀ s ∈ S, s ≤ 1) :
+    principalAngles S = S.map Real.arccos := by
+  unfold principalAngles
+  refine List.map_congr_left (fun s hs => ?_)
+  have : ¬ (1 < s) := not_lt.mpr (h s hs)
+  simp only [this, if_false]
+  rfl
+
+/-- the principal-angle distance is zero only when EVERY cosine is exactly one: a cosine of
+    `1 - 1e-9` (an angle of 4.5e-5) or of the double just below one contributes -/
+theorem angle_distance_zero_only_for_unit_cosines (s : Fin r → ℝ) (h0 : ∀ i, 0 ≤ s i) (h1 : ∀ i, s i ≤ 1) :
+    chordalFromAngles (principalAngles (List.ofFn s)) = 0 ↔ ∀ i, s i = 1 := by
+  rw [chordal_from_angles_value s h0 h1, Real.sqrt_eq_zero']
+  exact Pf.sum_one_sub_sq_eq_zero_iff r s h0 h1
+
+/-- non-vacuity: the cosines `1` and `1 - 2⁻⁵³` (adjacent doubles) are in range and not all one -/
+example : ∃ s : Fin 2 → ℝ, (∀ i, 0 ≤ s i) ∧ (∀ i, s i ≤ 1) ∧ ¬ ∀ i, s i = 1 :=
+  ⟨fun i => if i = 0 then 1 else 1 - 1 / 9007199254740992, fun i => by fin_cases i <;> norm_num,
+    fun i => by fin_cases i <;> norm_num, fun h => by have := h 1; norm_num at this⟩
+
+/-- `peig` / `leig` resolve every strict difference, however small: if index `b` carries a strictly
+    larger value than a kept index `a` then `b` is kept by `peig` too (and dually for `leig`) -/
+theorem selectors_resolve_every_strict_difference {β : Type} [Preorder β] (val : Nat → β) {c k : Nat}
+    {perm : List Nat} (h : ArgsortContract val c perm) (hk : k ≤ c) (a b : Nat) (hb : b < c)
+    (hlt : val a < val b) :
+    (∀ idx, peigIdx c k perm = .ok idx → a ∈ idx → b ∈ idx) ∧
+    (∀ idx, leigIdx c k perm = .ok idx → b ∈ idx → a ∈ idx ∨ ¬ a < c) := by
+  constructor
+  · intro idx hidx ha
+    obtain ⟨idx', h1, _, _, _, _, h6⟩ := peig_selects_largest val h hk
+    rw [hidx] at h1
+    cases h1
+    by_contra hnb
+    exact lt_irrefl _ (lt_of_lt_of_le hlt (h6 a ha b hb hnb))
+  · intro idx hidx hbm
+    obtain ⟨idx', h1, _, _, _, _, h6⟩ := leig_selects_smallest val h hk
+    rw [hidx] at h1
+    cases h1
+    by_cases hac : a < c
+    · left
+      by_contra hna
+      exact lt_irrefl _ (lt_of_lt_of_le hlt (h6 b hbm a hac hna))
+    · right; exact hac
+
+/-- `update_inv_sum_diag`: a diagonal entry takes effect for EVERY non-zero value, however small
+    (there is no "numerically zero, skip" in the model), … -/
+theorem diagonal_update_takes_effect_for_every_nonzero_value {K : Type} [Field K] (inv : Mat K n n)
+    (i : Fin n) (d : K) (hd : d ≠ 0) (hi : inv i i ≠ 0) (hp : 1 + d * inv i i ≠ 0) :
+    smStep inv i d ≠ inv := Pf.smStep_ne_self inv i d hd hi hp
+
+/-- … and two different values, however close, give different inverses -/
+theorem diagonal_update_distinct_for_distinct_values {K : Type} [Field K] (inv : Mat K n n)
+    (i : Fin n) (d d' : K) (hne : d ≠ d') (hi : inv i i ≠ 0) (hp : 1 + d * inv i i ≠ 0)
+    (hp' : 1 + d' * inv i i ≠ 0) : smStep inv i d ≠ smStep inv i d' :=
+  fun h => hne (Pf.smStep_injective_in_d inv i d d' hi hp hp' h)
+
+/-- non-vacuity: `inv = [1]`, values `1e-12` and `2e-12` -/
+example : ((eye : Mat ℚ 1 1) 0 0 ≠ 0) ∧ (1 + (1 / 10 ^ 12 : ℚ) * (eye : Mat ℚ 1 1) 0 0 ≠ 0) ∧
+    (1 + (2 / 10 ^ 12 : ℚ) * (eye : Mat ℚ 1 1) 0 0 ≠ 0) ∧ ((1 / 10 ^ 12 : ℚ) ≠ 2 / 10 ^ 12) := by
+  simp [eye]; norm_num
+
+/-- the conversions are injective: two different linear values (positive), two different dB values,
+    however close (1 and 1 + 1e-12, 2.4e9 and 2.4e9 + 2e4, adjacent doubles), never convert to the same
+    result — a fast path / lookup must key on the exact value -/
+theorem conversion_distinct_values_distinct_results :
+    (∀ x y : ℝ, 0 < x → 0 < y → x ≠ y → linear2dB x ≠ linear2dB y ∧ linear2dBm x ≠ linear2dBm y) ∧
+    (∀ a b : ℝ, a ≠ b → dB2Linear a ≠ dB2Linear b ∧ dBm2Linear a ≠ dBm2Linear b) ∧
+    (∀ v w b : ℝ, v ≠ w → snrToEbN0 v b ≠ snrToEbN0 w b ∧ ebN0ToSnr v b ≠ ebN0ToSnr w b) := by
+  refine ⟨fun x y hx hy hne => ⟨fun h => hne ?_, fun h => hne ?_⟩,
+    fun a b hne => ⟨fun h => hne ?_, fun h => hne ?_⟩,
+    fun v w b hne => ⟨fun h => hne ?_, fun h => hne ?_⟩⟩
+  · rw [← db_linear_inverse.2 x hx, ← db_linear_inverse.2 y hy, h]
+  · rw [← dbm_linear_inverse.2 x hx, ← dbm_linear_inverse.2 y hy, h]
+  · rw [← db_linear_inverse.1 a, ← db_linear_inverse.1 b, h]
+  · rw [← dbm_linear_inverse.1 a, ← dbm_linear_inverse.1 b, h]
+  · rw [← (ebn0_snr_inverse v b).1, ← (ebn0_snr_inverse w b).1, h]
+  · rw [← (ebn0_snr_inverse v b).2, ← (ebn0_snr_inverse w b).2, h]
+
+end r15
+
+/-! ## R16 — argument identity and buffer reuse
+
+`Heap` / `Op` / `run` (Model/C20Robust.lean): the caller owns numbered arrays, refills them in place and
+calls the routines on them; the routine called is ANY pure function of the contents (the model
+functions of this file with the kernel results as parameters — the driver op `hist` instantiates it). -/
+section r16
+open PyPhysim.C20R
+variable {β γ : Type}
+
+/-- the `k`-th operation of a history returns what a fresh call returns on the contents the caller's own
+    refills have produced by then — nothing of earlier calls is remembered -/
+theorem call_reads_contents_at_call_time (h : Heap β) (pre post : List (Op β γ)) (op : Op β γ) :
+    (run h (pre ++ op :: post)).2[pre.length]? = some (result (run h (refillsOnly pre)).1 op) := by
+  rw [run_append, ← run_heap_refills]
+  simp only [run]
+  rw [List.getElem?_append_right (by rw [run_length])]
+  simp [run_length]
+
+/-- results handed out earlier are not changed by later refills and calls -/
+theorem earlier_results_unchanged_by_later_calls (h : Heap β) (a b : List (Op β γ)) :
+    (run h (a ++ b)).2.take a.length = (run h a).2 := by
+  rw [run_append]
+  simp [run_length]
+
+/-- calls never write to the caller's arrays: after any history they hold what the refills put there -/
+theorem calls_leave_buffers_unchanged (h : Heap β) (ops : List (Op β γ)) :
+    (run h ops).1 = (run h (refillsOnly ops)).1 := run_heap_refills h ops
+
+/-- a result depends on the *contents* of the argument arrays only, not on which array (object) carries
+    them: an equal-content copy gives the same result -/
+theorem result_depends_on_contents_only (h h' : Heap β) (i i' j j' k k' : Nat) (hi : h i = h' i')
+    (hj : h j = h' j') (hk : h k = h' k') (f1 : β → γ) (f2 : β → β → γ) (f3 : β → β → β → γ) :
+    result h (.call1 f1 i) = result h' (.call1 f1 i') ∧
+    result h (.call2 f2 i j) = result h' (.call2 f2 i' j') ∧
+    result h (.call3 f3 i j k) = result h' (.call3 f3 i' j' k') := by
+  simp only [result, hi, hj, hk, and_self]
+
+/-- non-vacuity / worked history: refill, call, refill the SAME array, call again, the same array in
+    both roles -/
+example : (run (fun _ => (0 : Nat))
+    [.refill 0 5, .call1 (· + 1) 0, .refill 0 7, .call1 (· + 1) 0, .refill 1 2, .call2 (· * ·) 0 1,
+     .call2 (· * ·) 0 0]).2 = [none, some 6, none, some 8, none, some 14, some 49] := by
+  decide
+
+variable {m k c : Nat}
+
+/-- the same array object in both roles: the distance of a subspace from itself is exactly zero
+    (`calc_chordal_distance_2(A, A)`, `calc_chordal_distance(A, A)`), whatever the kernels return -/
+theorem same_object_in_both_roles (A : Mat ℂ m k) (G : Mat ℂ k k) (Q : Mat ℂ m k) :
+    chordal2 G G A A = 0 ∧ chordal Q Q = 0 :=
+  ⟨(chordOfProj_eq_zero_iff _ _).mpr rfl, (chordOfProj_eq_zero_iff _ _).mpr rfl⟩
+
+/-- the very array a `Projection` was built from, handed to its own methods: `project` returns it,
+    `oProject` annihilates it, `reflect` negates it -/
+theorem projection_of_own_basis {K : Type} [CommRing K] [StarRing K] (A : Mat K m k) (G : Mat K k k)
+    (hG : matMul G (gram A) = eye) :
+    project (projWith G A) A = A ∧ project (oprojWith G A) A = (fun _ _ => 0) ∧
+    reflect (projWith G A) A = (fun i j => - A i j) := by
+  have hfix := proj_fixes_A A G hG
+  have hfix' : toM (projWith G A) * toM A = toM A := by
+    have := congrArg toM hfix
+    rwa [toM_matMul] at this
+  refine ⟨hfix, ?_, ?_⟩
+  · apply toM_inj
+    rw [toM_project]
+    have : toM (oprojWith G A) = 1 - toM (projWith G A) := by
+      simp only [oprojWith, toM_msub, toM_eye]
+    rw [this, Matrix.sub_mul, Matrix.one_mul, hfix', sub_self]
+    rfl
+  · apply toM_inj
+    rw [toM_reflect, Matrix.sub_mul, Matrix.one_mul, Matrix.smul_mul, hfix']
+    ext i j
+    simp only [toM, Matrix.sub_apply, Matrix.smul_apply, Matrix.of_apply, smul_eq_mul]
+    ring
+
+end r16
 
 section nonvacuity
 open Matrix
